@@ -1277,6 +1277,12 @@ def run(chk):
         of_cases.append("; ".join(ops[:-6] + ["close"]))
     with multiprocessing.Pool(max(2, vlib.NCPU - 2)) as pool:
         of_cov, of_bad = c13_fault.run_stage(chk, of_cases, hxbin, lambda f, a: pool.map(f, a, chunksize=1))
+        af_cov, af_bad = c13_fault.run_apply_stage(chk, of_cases, hxbin, lambda f, a: pool.map(f, a, chunksize=1))
+    of_cov["apply_fault"] = af_cov
+    evaluations += af_cov["faulted_applies"]
+    for b in af_bad:
+        prop_bad.append({"kind": "apply-fault", "tag": b["tag"], "case": b["case"], "what": b["problems"][0]["what"] + " - " + b["problems"][0]["fault"],
+                         "problems": b["problems"]})
     for b in of_bad:
         prop_bad.append({"kind": "open-fault", "tag": b["tag"], "case": b["case"], "what": b["problems"][0]["what"] + " - " + b["problems"][0]["fault"],
                          "problems": b["problems"]})
@@ -1290,7 +1296,7 @@ def run(chk):
         samples.append({"crash_history": crash_cases[-1][0][:400]})
     chk.coverage.update({
         "evaluations": evaluations, "distinct_nontrivial": len(distinct),
-        "rule": "one SplitMix64 seed; (1) histories of open/apply/rollover/close/cut/verify/dump with ratios {0,1,2,3,5,10,1000,2^32,2^63,2^64-1}, strings from a boundary pool (1..300 bytes, CR inside, '+'/'-' first, the separator itself, control bytes) plus strings the reader cannot take back (empty, non-ASCII of 2/3/4 bytes, trailing CR, newline, keys + - \\n non-ASCII), non-trivial = at least 2 applies; (2) files: valid serialisations, truncations (all lengths for small files / thorough tier, otherwise line boundaries +-2 and random), 12 kinds of malformed mutants incl. invalid UTF-8, '+' and upper-case checksums, CRLF, well-checksummed unwritable lines; non-trivial = more than 16 bytes; (3) crash: histories under strace, images = prefix of recorded calls x cut of MANIFEST's unsynced tail; distinct = distinct case strings / (history, op, calls, cut); (4) open-fault: histories closed cleanly, then Manifest::open re-run on a copy with EIO injected (strace) at each system call of the open that touches the directory, followed by an undisturbed reopen",
+        "rule": "one SplitMix64 seed; (1) histories of open/apply/rollover/close/cut/verify/dump with ratios {0,1,2,3,5,10,1000,2^32,2^63,2^64-1}, strings from a boundary pool (1..300 bytes, CR inside, '+'/'-' first, the separator itself, control bytes) plus strings the reader cannot take back (empty, non-ASCII of 2/3/4 bytes, trailing CR, newline, keys + - \\n non-ASCII), non-trivial = at least 2 applies; (2) files: valid serialisations, truncations (all lengths for small files / thorough tier, otherwise line boundaries +-2 and random), 12 kinds of malformed mutants incl. invalid UTF-8, '+' and upper-case checksums, CRLF, well-checksummed unwritable lines; non-trivial = more than 16 bytes; (3) crash: histories under strace, images = prefix of recorded calls x cut of MANIFEST's unsynced tail; distinct = distinct case strings / (history, op, calls, cut); (4) open-fault: histories closed cleanly, then Manifest::open re-run on a copy with EIO injected (strace) at each system call of the open that touches the directory, followed by an undisturbed reopen; and the last apply of the history re-run with EIO at each of its system calls (the roll-over's included), followed by an undisturbed reopen that must yield the state before the edit or the state with the whole edit, the latter when the call had returned success",
         "samples": samples,
         "input_distribution": {"histories": stats, "format": fstats, "crash": cstats, "lock": lstats, "open_fault": of_cov},
         "corpus_cases": len(corpus),
@@ -1361,6 +1367,10 @@ def replay(path):
     shutil.rmtree(work, ignore_errors=True)
     os.makedirs(work)
     case = b["case"]
+    if b.get("kind") == "apply-fault":
+        r = c13_fault.run_apply_case((hxbin, work, "replay", case))
+        print("problems now:", json.dumps(r["problems"][:8], indent=1)[:4000])
+        return 1 if r["problems"] else 0
     if b.get("kind") == "open-fault":
         r = c13_fault.run_case((hxbin, work, "replay", case))
         print("problems now:", json.dumps(r["problems"][:8], indent=1)[:4000])
